@@ -114,6 +114,7 @@ bool MainSolver::pop() {
     VERIF_LINE("fr %p pop %u", static_cast<void const *>(this), static_cast<unsigned>(frames.frameCount()));
     firstNotSimplifiedFrame = std::min(firstNotSimplifiedFrame, frames.frameCount());
     if (not isLastFrameUnsat()) { getSMTSolver().restoreOK(); }
+    status = s_Undef; // the last answer, its model and its proof were about the assertions before the pop
     return true;
 }
 
@@ -155,6 +156,7 @@ void MainSolver::insertFormula(PTRef fla) {
 
     frames.add(fla);
     firstNotSimplifiedFrame = std::min(firstNotSimplifiedFrame, frames.frameCount() - 1);
+    status = s_Undef; // the last answer was about another set of assertions
 }
 
 bool MainSolver::tryAddNamedAssertion(PTRef fla, std::string const & name) {
@@ -412,7 +414,10 @@ sstat MainSolver::check() {
 #ifdef OPENSMT_VERIF
     if (isLastFrameUnsat()) { VERIF_LINE("res %p unsat-frame", static_cast<void const *>(this)); }
 #endif
-    if (isLastFrameUnsat()) { return s_False; }
+    if (isLastFrameUnsat()) {
+        status = s_False;
+        return s_False;
+    }
     sstat rval = simplifyFormulas();
 
     if (config.dump_query()) printCurrentAssertionsAsQuery();
@@ -435,6 +440,7 @@ sstat MainSolver::check() {
 
     VERIF_LINE("res %p %s", static_cast<void const *>(this),
                rval == s_True ? "sat" : rval == s_False ? "unsat" : rval == s_Undef ? "unknown" : "error");
+    status = rval;
     return rval;
 }
 
